@@ -3,7 +3,7 @@ SPECIFICATION Spec
 CONSTANTS
   Families = {"repo"}
   GrowDepth = 0
-  Stride = 3
+  Stride = 5
   MutStride = 1
   DocEols = {"lf"}
   DocBefores = {"none"}
